@@ -660,7 +660,11 @@ def run(tier):
 
 
 def replay(path):
-    d = json.load(open(path))
+    txt = open(path).read()
+    try:
+        d = json.loads(txt)
+    except ValueError:      # a corpus file: the first case line
+        d = {'case': next((l.strip() for l in txt.splitlines() if l.strip() and not l.startswith('#')), None)}
     ck = Check(PID, 'quick')
     mexe, _ = ck.build_modelrun(); exes, errs = build_all(ck)
     c = d.get('case')
